@@ -13,7 +13,7 @@ import ast
 import itertools
 import re
 
-from .interp import Interp, Scenario, Sym, ListV, Obj, render
+from .interp import Interp, Scenario, Sym, Const, Bytes, ListV, Obj, render
 from .loader import AnalysisError, dotted
 
 noinline = lambda f: False  # noqa: E731
@@ -46,6 +46,18 @@ def run_roles(prog, fi, roles, vararg=None, kwarg=None, args=None, **sc):
             self_val = overrides.get(first) or Sym(first, cls=scen.self_cls or fi.cls, nonnull=True)
     for name, role in zip(params, rl):
         call_args[name] = overrides.get(role) or Sym(role)
+    # parameters the rule knows nothing about (added by a refactoring, never passed by the existing callers) hold their default
+    a = node.args
+    pos_all = [x.arg for x in a.posonlyargs + a.args]
+    dflt = dict(zip(pos_all[len(pos_all) - len(a.defaults):], a.defaults)) if a.defaults else {}
+    dflt.update({x.arg: d for x, d in zip(a.kwonlyargs, a.kw_defaults) if d is not None})
+    for name, d in dflt.items():
+        if name in call_args or name in params[:len(rl)]:
+            continue
+        if isinstance(d, ast.Constant):
+            call_args[name] = Bytes([('C', d.value)]) if isinstance(d.value, bytes) else Const(d.value)
+        elif dotted(d) is not None:
+            call_args[name] = Sym(dotted(d))
     if node.args.vararg is not None and vararg is not None:
         call_args['*'] = ListV([overrides.get(r) or Sym(r) for r in vararg], 'tuple')
     if node.args.kwarg is not None and kwarg is not None:
@@ -135,6 +147,7 @@ def norm_term(text):
     if text is None:
         return None
     text = _one_octet_ints(text)
+    text = text.replace('binascii.a2b_hex(', 'binascii.unhexlify(').replace('binascii.b2a_hex(', 'binascii.hexlify(')
     t = re.sub(r'\bBYTE\((\d+)\)', lambda m: 'C(%02x)' % int(m.group(1)) if int(m.group(1)) < 256 else m.group(0), text)
     while True:
         new = re.sub(r'\bC\(([0-9a-f]*)\) C\(([0-9a-f]*)\)', r'C(\1\2)', t)
@@ -248,8 +261,14 @@ def int_equiv(text, reference, samples):
 class _IntCalls(ast.NodeTransformer):
     """Integer idioms over non-negative operands: int(a / b) and divmod(a, b)[0] are a // b, divmod(a, b)[1] is a % b,
     int(x) of an integer expression is the expression."""
+    OPS = {'floordiv': ast.FloorDiv, 'add': ast.Add, 'sub': ast.Sub, 'mul': ast.Mult, 'mod': ast.Mod, 'lshift': ast.LShift,
+           'rshift': ast.RShift, 'and_': ast.BitAnd, 'or_': ast.BitOr, 'xor': ast.BitXor, 'pow': ast.Pow}
+
     def visit_Call(self, node):
         self.generic_visit(node)
+        if isinstance(node.func, ast.Attribute) and isinstance(node.func.value, ast.Name) and node.func.value.id == 'operator' and \
+                node.func.attr in self.OPS and len(node.args) == 2 and not node.keywords:
+            return ast.BinOp(left=node.args[0], op=self.OPS[node.func.attr](), right=node.args[1])
         if isinstance(node.func, ast.Name) and node.func.id == 'int' and len(node.args) == 1 and not node.keywords:
             a = node.args[0]
             if isinstance(a, ast.BinOp) and isinstance(a.op, ast.Div):
@@ -420,6 +439,33 @@ def random_prefix(items, alg, data):
     return None
 
 
+STDLIB = ('os', 'zlib', 'bz2', 'binascii', 'hashlib', 'functools', 'operator')
+
+
+def qualify_imports(text, module):
+    """`from zlib import compress as zc`: a bare zc(...) in a value text is zlib.compress(...) (standard library names only)."""
+    for alias, imp in getattr(module, 'imports', {}).items():
+        if text and imp[1] is not None and imp[0] in STDLIB and alias != '*':
+            text = re.sub(r'(?<![A-Za-z0-9_.\'"])%s(?![A-Za-z0-9_\'"=])' % re.escape(alias), '%s.%s' % (imp[0], imp[1]), text)
+    return text
+
+
+def zero_octets(text):
+    """The length expression n when `text` denotes n zero octets: b'\\0' * n, bytes(n), (0).to_bytes(n, 'big'), b''.ljust(n, b'\\0')."""
+    t = norm_term(text or '')
+    for head in ('REP(C(00);', 'INT('):
+        if t.startswith(head) and t.endswith(')') and _balanced(t[len(head):-1]):
+            inner = t[len(head):-1]
+            if head == 'INT(':
+                parts = _split_top(inner, ';')
+                return parts[0] if len(parts) == 2 and parts[1] == '0' else None
+            return inner
+    c = split_args(t)
+    if c is not None and c[0] in ('C().ljust', '.ljust', "C().rjust", '.rjust') and len(c[1]) == 2 and c[1][1] == 'C(00)':
+        return c[1][0]
+    return None
+
+
 def qualify_urandom(text, module):
     """`from os import urandom`: a bare urandom(...) in a value text is os.urandom(...)."""
     imp = getattr(module, 'imports', {}).get('urandom')
@@ -430,7 +476,7 @@ def qualify_urandom(text, module):
 
 def is_urandom_of(text, nbytes, module=None):
     """Is `text`, as a whole, os.urandom(<expression that folds to nbytes>)?"""
-    c = split_args(qualify_urandom(text, module) if module is not None else (text or ''))
+    c = split_args(qualify_imports(text, module) if module is not None else (text or ''))
     return c is not None and c[0] == 'os.urandom' and len(c[1]) == 1 and int_equiv(c[1][0], lambda: nbytes, {}) is True
 
 
